@@ -518,6 +518,10 @@ def assemble(unit_dir, out_path, probe=False):
                 if ent.get('unstub') and sp.raw is None:
                     sp.assume = False
                     sp.stub = False
+                # "stub": the same contracts ASSUMED here (another unit proves them); bodies are not compiled
+                if ent.get('stub') and sp.raw is None and re.search(r'\bfn \w+$', sp.selector or ''):
+                    sp.assume = True
+                    sp.stub = True
                 n.entries.append(('item', sp))
 
     def emit(n, depth):
